@@ -1041,6 +1041,20 @@ fn bench(ctx: &Ctx) {
     eprintln!("history [CT1 I1 RO] + oracle: {} us", t0.elapsed().as_micros() / n);
 }
 
+/// eyre captures a symbolized backtrace per error when RUST_BACKTRACE is set (milliseconds per Err,
+/// and most probes of the `names` / `table-gone` layers are expected errors): decided once per
+/// process by std, so fix it before the first error is created.
+fn quiet_env() {
+    std::env::set_var("RUST_BACKTRACE", "0");
+    std::env::set_var("RUST_LIB_BACKTRACE", "0");
+    unsafe {
+        libc::mallopt(libc::M_TRIM_THRESHOLD, 1 << 30);
+        libc::mallopt(libc::M_TOP_PAD, 64 << 20);
+        libc::mallopt(libc::M_MMAP_THRESHOLD, 1 << 20);
+    }
+}
+
 fn main() {
+    quiet_env();
     vcore::main(&C21)
 }
